@@ -3,6 +3,7 @@ let () = Driver.main [
   { Driver.name = "loss"; run = loss_run; judge = loss_judge };
   { Driver.name = "rtt"; run = rtt_run; judge = rtt_judge };
   { Driver.name = "pto"; run = pto_run; judge = pto_judge };
+  { Driver.name = "pc"; run = pc_run; judge = pc_judge };
   { Driver.name = "manager"; run = manager_run; judge = manager_judge };
   { Driver.name = "manager_tol"; run = manager_run; judge = manager_tol_judge };
 ]
